@@ -299,7 +299,8 @@ def state_list(tier):
         for emptied in (False, True):
             states.append({"seed": sd, "ops": [], "held": "all", "emptied": emptied})
             if sd != "mini+dims9":
-                states.append({"seed": sd, "ops": [], "held": "each", "emptied": emptied})
+                for part in range(3):
+                    states.append({"seed": sd, "ops": [], "held": "each", "emptied": emptied, "part": part})
     if tier == "thorough":
         states.append({"seed": "light", "ops": []})
         for h in explorer.enumerate_histories("mini", 2, THIN, follow=explorer.same_entity_or_reopen):
@@ -405,7 +406,9 @@ def run_held(case):
             return c, w, d
         ctx, w0, d0 = prepare(s)
         r.states.add(jhash(walker.canon(w0)))
-        for fa in FAULTS:
+        for fi, fa in enumerate(FAULTS):
+            if case.get("part") is not None and fi % 3 != case["part"]:
+                continue            # the per-call mode is spread over three cases (work distribution only)
             if any(getattr(ctx, n) is None for n in fa["needs"]):
                 continue
             env.CLOCK.advance(7)
